@@ -30,7 +30,17 @@ META = {
             "C02_c, C02_b, P_C02_weak = true for all inputs that satisfy the computable guards c_deep_guard / b_deep_guard (block "
             "formatter, regular diff, per-row conditions for every row of old at every depth); C02_cant_delete_kept_full_of_model / "
             "C02_holds_of_model - the full form of (c) and P_C02 itself = true when moreover no cant_delete row sits inside a block "
-            "the diff removes (c_full_guard: the class of the open finding is the only obstacle). The top-level theorems "
+            "the diff removes (c_full_guard: the class of the open finding is the only obstacle). FROM THE DEVICE DOMAIN ALONE "
+            "(Proofs/AclGuardDomain.v): C02_diff_level_in_domain - inside the domain every entry of a level of the diff is the "
+            "entry of a row of the filtered new (ADDED, or AFFECTED/UNCHANGED) or of a row of the filtered old that new lacks "
+            "(REMOVED, or AFFECTED/UNCHANGED under cant_delete), and below a kept entry the diff is again such a diff; "
+            "C02_diff_regular_in_domain; C02_c_guard_from_domain / C02_b_guard_from_domain / C02_c_full_guard_from_domain - the "
+            "guards on the diff follow from hypotheses on old, the filtered new and the rulebook only (c02_dev_domain_A = "
+            "P_C01.wf_A = the domain without %force_commit; c02_rules_det = one attribute set per rule text on the rule sets old "
+            "reaches; c02_kept_ok = no block with children absent from new that is cant_delete and replaced by another row of its "
+            "slot, or `permanent`; c02_closed for (b)); hence C02_cant_delete_kept_in_domain, C02_uncovered_untouched_in_domain, "
+            "C02_weak_holds_in_domain, and with c02_kept_ok_full (no cant_delete row inside a deletable block absent from new) "
+            "C02_cant_delete_kept_full_in_domain and C02_holds_in_domain (P_C02 itself). The top-level theorems "
             "(_partial, _top_guarded) are kept. Witness theorems: C02_rewrite_is_not_removal, C02_slot_split_refuted, "
             "C02_cant_delete_ancestor_refuted (open finding). Correspondence: generated ACL texts (nesting, *, ~, %global, "
             "%cant_delete, %prio, reverse-form lines, 1-3 generators merged by the real _combine_acl_text), rulebooks and trees with "
@@ -39,19 +49,23 @@ META = {
             "the guards of the full-depth theorems are evaluated on every in-domain case (coverage: deep_guard_*).",
     "technique": "Coq induction over diff / patch trees, the formatter's block stream, device command streams and chains of device "
                  "blocks; vm_compute evaluation of P_C02 and of model==implementation on real _diff_and_patch outputs with generated ACLs",
-    "note": "partial: (b) and (c) are proved at every depth under guards stated on the entries of the diff, not yet under the device "
-            "domain alone (C02_cant_delete_kept_statement / C02_uncovered_untouched_statement stay Definitions). Missing: that the "
-            "domain (P_C01.wf_step on the rows of old and of the filtered new) implies the per-level conditions on the diff; blocks "
-            "with children that are cant_delete or `permanent`, absent from new, while new holds another row of their slot; "
-            "%force_commit rules (irregular diff) and %rewrite blocks. Measured on every run: the guards hold for about 93% of the "
-            "in-domain cases (97% apart from %force_commit); on all cases the clauses are evaluated by Coq on the real output. Open "
+    "note": "partial: (b) and (c) are proved at every depth from the device domain alone for block formatters, without "
+            "%force_commit, outside two classes stated on old/new (c02_kept_ok: a block with children, absent from new, that is "
+            "cant_delete while new holds another row of its slot, or is `permanent` and not cant_delete - the clauses hold on the "
+            "witnesses C02_kept_classes_witness but need a sharper patch relation) and for rulebooks with one attribute set per "
+            "rule text. C02_cant_delete_kept_statement / C02_uncovered_untouched_statement stay Definitions; the latter is false "
+            "over the whole of c02_dev_domain: C02_uncovered_untouched_statement_refuted / C02_force_commit_refuted (the reference "
+            "device reads the pseudo-command `commit` as a command and overwrites an uncovered row of a rule whose text is "
+            "`commit`; real command paths identical; a limit of the statement, not of the code). Measured on every run "
+            "(coverage domain_theorem_hypotheses_hold_in_domain): the hypotheses of the domain theorems hold for about 91% of the "
+            "in-domain cases, the guards on the diff for about 93%; on all cases the clauses are evaluated by Coq on the real output. Open "
             "finding C02/c/cant_delete-row-lost-with-its-ancestor-block: cant_delete is not inherited by ancestor blocks, so (c) without "
             "an ancestor exception is false on the unchanged tree (witness replayed on the real code on every run). "
             "Juniper/Nokia/RouterOS flattened command forms are out of scope.",
 }
 IMPORTS = (P.PIPE_IMPORTS + "\nFrom Annet Require Import Model.Device Model.Acl Model.AclPipeline Spec.P_C01 Spec.P_C02.")
 # the computable guards of the full-depth theorems (Proofs/AclDeviceNested.v), evaluated on the in-domain cases
-IMPORTS_DEEP = IMPORTS + "\nFrom Annet Require Import Proofs.AclPipelineProofs Proofs.AclDeviceNested."
+IMPORTS_DEEP = IMPORTS + "\nFrom Annet Require Import Proofs.AclPipelineProofs Proofs.AclDeviceNested Proofs.AclGuardDomain."
 
 GEN_NAMES = ["g1", "g2", "g3"]
 
@@ -484,11 +498,29 @@ def run(ctx):
         {"c_guard": "fun c => c_deep_guard (c2_in c)",
          "c_full": "fun c => c_full_guard (c2_in c)",
          "b_guard": "fun c => negb (c02_closed (c2_in c)) || b_deep_guard (c2_in c)",
-         "regular": "fun c => is_block_family (v_family (i_vendor (c2_in c))) && diff_regular (p_full_diff (c2_in c))"},
-        [coq_case(cases[i], outs[i]) for i in dom_idx], per_file=16, tag="guards") if dom_idx else {"c_guard": [], "c_full": [], "b_guard": [], "regular": []}
+         "regular": "fun c => is_block_family (v_family (i_vendor (c2_in c))) && diff_regular (p_full_diff (c2_in c))",
+         # the hypotheses of C02_cant_delete_kept_in_domain / C02_uncovered_untouched_in_domain: stated on old, the filtered
+         # new and the rulebook only (no guard on the diff)
+         "dom_thm": "fun c => is_block_family (v_family (i_vendor (c2_in c))) && c02_dev_domain_A (c2_in c) && "
+                    "c02_rules_det (c2_in c) && c02_kept_ok (c2_in c)",
+         "dom_A": "fun c => c02_dev_domain_A (c2_in c)",
+         "kept_ok": "fun c => c02_kept_ok (c2_in c)",
+         "rules_det": "fun c => c02_rules_det (c2_in c)"},
+        [coq_case(cases[i], outs[i]) for i in dom_idx], per_file=16, tag="guards") if dom_idx else {
+            "c_guard": [], "c_full": [], "b_guard": [], "regular": [], "dom_thm": [], "dom_A": [], "kept_ok": [], "rules_det": []}
     c_guard_false = {dom_idx[j] for j in guards["c_guard"]}
     c_full_false = {dom_idx[j] for j in guards["c_full"]}
     b_guard_false = {dom_idx[j] for j in guards["b_guard"]}
+    dom_thm_false = {dom_idx[j] for j in guards["dom_thm"]}
+    # C02_c_guard_from_domain / C02_b_guard_from_domain say: hypotheses on old / new / rulebook => guard on the diff
+    for i in dom_idx:
+        if i not in dom_thm_false and (i in c_guard_false or i in b_guard_false):
+            ctx.add_violation(core.Violation(
+                signature="C02/domain-theorem-contradicted",
+                what="the hypotheses of C02_c_guard_from_domain / C02_b_guard_from_domain hold of the case but a guard of the "
+                     "full-depth theorems evaluates to false (the Coq theorems and the evaluated definitions differ)",
+                replay=dict(rep(cases[i], outs[i])), no_input=True))
+            break
     # the theorems say: guard => clause, for the model; with model == implementation the clause must hold on the real output
     for i in dom_idx:
         broken = [k for k, bad in (("c", c_guard_false), ("c_deep", c_full_false), ("b", b_guard_false))
@@ -536,6 +568,11 @@ def run(ctx):
         "deep_guard_c_full_holds_in_domain": len(dom_idx) - len(guards["c_full"]),      # ... of C02_cant_delete_kept_full_of_model
         "deep_guard_b_holds_in_domain_and_closed": len(closed_idx) - len([i for i in closed_idx if i in b_guard_false]),
         "in_domain_block_family_and_regular_diff": len(dom_idx) - len(guards["regular"]),
+        # hypotheses of the theorems from the domain alone (C02_cant_delete_kept_in_domain, C02_uncovered_untouched_in_domain)
+        "domain_theorem_hypotheses_hold_in_domain": len(dom_idx) - len(guards["dom_thm"]),
+        "in_domain_without_force_commit": len(dom_idx) - len(guards["dom_A"]),
+        "in_domain_class_X1_X2_kept_block_replaced_or_permanent": len(guards["kept_ok"]),
+        "in_domain_rule_text_with_two_attribute_sets": len(guards["rules_det"]),
         "b_false_without_slot_closed": len(res["st_b_unguarded"]),
         "cant_delete_row_text_rewritten": len(res["st_c_text"]),
         "cant_delete_row_lost_with_ancestor": len(deep_only),
@@ -548,7 +585,8 @@ def run(ctx):
         "block vendors only (the flattened set/delete forms of Juniper/Nokia/RouterOS are outside Device.v)",
         "clauses (b),(c) are statements about the reference device Model/Device.v inside its domain (P_C01.wf_step); "
         "they are evaluated on every real output, and proved for all inputs that satisfy c_deep_guard / b_deep_guard "
-        "(coverage deep_guard_*), not for the whole domain",
+        "(coverage deep_guard_*) and, from hypotheses on old / new / rulebook only, for the domain without %force_commit "
+        "outside the classes of c02_kept_ok (coverage domain_theorem_hypotheses_hold_in_domain), not for the whole domain",
         "not modelled: %ignore_case, %multiline, %comment/add_comments (with_annotations=False), vendor %logic functions",
     ]
     return cases, outs, res
